@@ -397,8 +397,9 @@ func (sc scope) strDims() []string {
 }
 
 type qgen struct {
-	r    *hk.Rng
-	data *Data
+	r       *hk.Rng
+	data    *Data
+	lastSub *Cond // the IN-subquery generated last (re-used for textually identical sub-queries)
 }
 
 func (g *qgen) cmpCond(sc scope) *Cond {
@@ -435,6 +436,14 @@ func (g *qgen) cmpCond(sc scope) *Cond {
 
 func (g *qgen) inSub() *Cond {
 	r := g.r
+	if g.lastSub != nil && r.Chance(1, 3) {
+		// the same sub-query text once more (same or another outer dimension)
+		d := g.lastSub.Dim
+		if r.Bool() {
+			d = hk.Pick(r, []string{"x", "y", "z"})
+		}
+		return &Cond{Kind: "insub", Dim: d, Sub: g.lastSub.Sub}
+	}
 	d := hk.Pick(r, []string{"x", "y", "z"})
 	sub := &Q{Table: "t", Fields: []Sel{{Name: d, X: &FX{Kind: "ref", Name: d}}}}
 	tsc := scope{fields: g.tableFields(), dims: dims, strs: tableStrs, table: true}
@@ -461,7 +470,8 @@ func (g *qgen) inSub() *Cond {
 			sub.Limit = r.Range(1, 3)
 		}
 	}
-	return &Cond{Kind: "insub", Dim: d, Sub: sub}
+	g.lastSub = &Cond{Kind: "insub", Dim: d, Sub: sub}
+	return g.lastSub
 }
 
 func (g *qgen) where(sc scope, depth int) *Cond {
